@@ -478,6 +478,10 @@ func runBatch(tag string, scs []Scenario, vs ValidateSpec, workDir string, timeo
 		}
 		if len(scs) == 1 {
 			o.Findings = append(o.Findings, Finding{Scenario: byName[hit], Spec: module, Detail: detail, Line: line})
+			// keep the rejected trace next to the replay artefacts (diagnosis)
+			td := filepath.Join(VerifRoot, "out", "traces")
+			_ = os.MkdirAll(td, 0o755)
+			_ = copyFile(file, filepath.Join(td, hit+"."+module+".ndjson"))
 			return
 		}
 		// triage: the failing scenario alone (reproduction), and the rest separately
